@@ -77,33 +77,47 @@ def DGraph.getGroup (g : DGraph) (k : Nat × String) : DGraph × Nat :=
     let i := g.groups.length
     ({ g with groups := g.groups ++ [{ ty := k.1, name := k.2 }], groupMap := g.groupMap ++ [(k, i)] }, i)
 
+/-- the parameter loop of `AddCtor`: single parameters are kept, group parameters resolve (and create) their group -/
+def DGraph.addParams (env : TyEnv) : DGraph → List (Nat × String × String × Bool) → DGraph × List DParam × List Nat
+  | g, [] => (g, [], [])
+  | g, (ty, name, group, opt) :: rest =>
+    if group == "" then
+      match DGraph.addParams env g rest with
+      | (g', ps, gps) => (g', { ty := ty, name := name, group := group, optional := opt } :: ps, gps)
+    else
+      match g.getGroup ((elemOfId env ty).getD 0, group) with
+      | (g1, i) =>
+        match DGraph.addParams env g1 rest with
+        | (g', ps, gps) => (g', ps, i :: gps)
+
+/-- the result loop of `AddCtor`: grouped results join their group and get an index -/
+def DGraph.addResults : DGraph → List (Nat × String × String) → DGraph × List DResult
+  | g, [] => (g, [])
+  | g, (ty, name, group) :: rest =>
+    if group == "" then
+      match DGraph.addResults g rest with
+      | (g', rs) => (g', { ty := ty, name := name, group := group } :: rs)
+    else
+      match g.getGroup (ty, group) with
+      | (g1, i) =>
+        let grp := g1.groups.getD i default
+        let res : DResult := { ty := ty, name := name, group := group, idx := grp.results.length }
+        match DGraph.addResults { g1 with groups := g1.groups.modify i fun x => { x with results := x.results ++ [res] } } rest with
+        | (g', rs) => (g', res :: rs)
+
 /-- `AddCtor` -/
 def DGraph.addCtor (env : TyEnv) (g : DGraph) (id : Nat) (ps : List (Nat × String × String × Bool))
     (rs : List (Nat × String × String)) : DGraph :=
-  -- parameters
-  let (g, params, gparams) := ps.foldl (fun (acc : DGraph × List DParam × List Nat) p =>
-      let (g, params, gparams) := acc
-      let (ty, name, group, opt) := p
-      if group == "" then (g, params ++ [{ ty := ty, name := name, group := group, optional := opt }], gparams)
-      else
-        let (g, i) := g.getGroup ((elemOfId env ty).getD 0, group)
-        (g, params, gparams ++ [i])) (g, [], [])
-  -- results: grouped ones join their group and get an index
-  let (g, results) := rs.foldl (fun (acc : DGraph × List DResult) r =>
-      let (g, results) := acc
-      let (ty, name, group) := r
-      if group == "" then (g, results ++ [{ ty := ty, name := name, group := group }])
-      else
-        let (g, i) := g.getGroup (ty, group)
-        let grp := g.groups.getD i default
-        let res : DResult := { ty := ty, name := name, group := group, idx := grp.results.length }
-        ({ g with groups := g.groups.modify i fun x => { x with results := x.results ++ [res] } }, results ++ [res])) (g, [])
-  let ci := g.ctors.length
-  let consumers := ps.foldl (fun m p =>
-      let k := (p.1, p.2.1, p.2.2.1)
-      if m.any (·.1 == k) then m.map fun (a, l) => if a == k then (a, l ++ [ci]) else (a, l) else m ++ [(k, [ci])]) g.consumers
-  { g with ctors := g.ctors ++ [{ id := id, params := params, gparams := gparams, results := results }],
-           ctorMap := setNat g.ctorMap id ci, consumers := consumers }
+  match DGraph.addParams env g ps with
+  | (g1, params, gparams) =>
+    match DGraph.addResults g1 rs with
+    | (g2, results) =>
+      let ci := g2.ctors.length
+      let consumers := ps.foldl (fun m p =>
+          let k := (p.1, p.2.1, p.2.2.1)
+          if m.any (·.1 == k) then m.map fun (a, l) => if a == k then (a, l ++ [ci]) else (a, l) else m ++ [(k, [ci])]) g2.consumers
+      { g2 with ctors := g2.ctors ++ [{ id := id, params := params, gparams := gparams, results := results }],
+                ctorMap := setNat g2.ctorMap id ci, consumers := consumers }
 
 /-- `Scope.addNodes`: the accepted constructors of the scope, then of its children -/
 def addNodesAux (env : TyEnv) (sameIds : Bool) (st : St) : Nat → Nat → DGraph → DGraph
